@@ -17,7 +17,7 @@ func (r *rng) next() uint64 {
 	z = (z ^ (z >> 27)) * 0x94D049BB133111EB
 	return z ^ (z >> 31)
 }
-func (r *rng) intn(n int) int { return int(r.next() % uint64(n)) }
+func (r *rng) intn(n int) int       { return int(r.next() % uint64(n)) }
 func (r *rng) chance(a, b int) bool { return r.intn(b) < a }
 
 // RandomUnits composes n seeded random schemas from the feature atoms: 2-5 messages of up to 10 fields,
